@@ -5,7 +5,7 @@ option templates, emitter attributes, visitor methods)."""
 import ast
 import re
 
-from sa import state, tables, templ, pyflow, fmtfields, interop
+from sa import pattern as pat, state, tables, templ, pyflow, fmtfields, interop
 from sa.loader import enclosing_function, AnalysisError, parent_chain
 
 EXPLANATION = (
@@ -1051,6 +1051,51 @@ def rule_r14(repo, run, T):
               "write_impl_utility must also run when only Fortran is wrapped", mm.loc(wu[0]))
 
 
+def rule_r15(repo, run, T):
+    R = run.rule("C05.R15", "requirements accumulate: a flag collected over several helpers is or-ed, the user's header reaches "
+                            "C struct typemaps, a bind(C) function that writes through an argument is not PURE")
+    wp = repo.module("wrapp")
+    g = wp.func("Wrapp._gather_helper_code")
+    n = 0
+    for a in ast.walk(g):
+        if isinstance(a, ast.Assign) and isinstance(a.targets[0], ast.Attribute) and pyflow.is_name(a.targets[0].value, "self") \
+                and "helper_info" in wp.seg(a.value):
+            n += 1
+            attr = a.targets[0].attr
+            keeps = any(isinstance(x, ast.Attribute) and x.attr == attr and pyflow.is_name(x.value, "self") for x in ast.walk(a.value))
+            run.check(R, "wrapp.Wrapp._gather_helper_code:self.%s" % attr, keeps,
+                      "self.%s is set from the current helper alone: it must accumulate (`x or self.%s`) over all helpers "
+                      "gathered for the file, otherwise only the last helper decides (the numpy include is lost)" % (attr, attr),
+                      wp.loc(a))
+    run.floor(R, "accumulated helper flags", n, 1)
+    # C struct typemaps include the library's header
+    tm = repo.module("typemap")
+    fs = tm.func("fill_struct_typemap_defaults")
+    asg = pat.find(fs, "ntypemap.c_header = MV_V")
+    ok = len(asg) == 1 and "cxx_header" in tm.seg(asg[0][0].value) and not tm.seg(asg[0][0].value).startswith("node.")
+    run.check(R, "typemap.fill_struct_typemap_defaults:c_header", ok,
+              "for a C library the struct is the user's own: its typemap must include the library's header "
+              "(libnode.cxx_header); the struct node's own header list is empty, so wrapper headers lose the #include "
+              "and do not compile on their own", tm.loc(fs))
+    # PURE: not when a context/capsule argument is written
+    wf = repo.module("wrapf")
+    wi = wf.func("Wrapf.wrap_function_interface")
+    pures = [a for a in ast.walk(wi) if isinstance(a, ast.Assign) and isinstance(a.targets[0], ast.Attribute)
+             and a.targets[0].attr == "F_C_pure_clause" and pyflow.const_str(a.value) and "pure" in pyflow.const_str(a.value)]
+    for a in pures:
+        chain_if = a._parent
+        conds = []
+        node_ = chain_if
+        # collect the tests of the elif chain that lead to this arm (all false before it)
+        tests = [str(wf.seg(t)) for t, pol in pyflow.dominating_tests(a, stop=wi) if not pol]
+        run.check(R, "wrapf.Wrapf.wrap_function_interface:pure", any("'context' in" in t and "buf_args" in t for t in tests)
+                  and any("shadow" in t for t in tests),
+                  "a bind(C) interface is marked PURE without excluding results returned through a context argument or a shadow "
+                  "capsule (excluded cases: %s): gfortran rejects a PURE function with an INTENT(INOUT) argument" % tests, wf.loc(a))
+    if not pures:
+        raise AnalysisError("C05.R15: assignment of F_C_pure_clause not found")
+
+
 def run(repo, run, tier):
     tables.check_model_assumptions(repo)
     T = dict(
@@ -1074,6 +1119,7 @@ def run(repo, run, tier):
     rule_r12(repo, run, T)
     rule_r13(repo, run, T)
     rule_r14(repo, run, T)
+    rule_r15(repo, run, T)
     run.assumptions.extend([
         "field universe is an over-approximation (any attribute store / Scope keyword in the emitter's "
         "modules defines the field): a report means no assignment exists at all",
